@@ -210,6 +210,11 @@ pub trait Subject: Adder + Clone {
     fn fresh_growing(host: Host) -> Self {
         Self::fresh(host)
     }
+    /// like `fresh`, with storage blocks of different tiny sizes that grow one cell at a time: every push re-lays the
+    /// heap out, so a mix-up between the blocks' sizes shows with the first few instructions
+    fn fresh_tight(host: Host) -> Self {
+        Self::fresh(host)
+    }
     fn host(&self) -> &Host;
     fn host_mut(&mut self) -> &mut Host;
     /// operand depth not counting call frames
@@ -262,6 +267,10 @@ impl Subject for BData {
     fn fresh_growing(host: Host) -> Self {
         let st = || basic_settings(16, ReallocationStrategy::Multiplicative(2));
         BasicGarnishData::new_with_settings(st(), st(), st(), st(), st(), st(), host).expect("BasicGarnishData::new_with_settings")
+    }
+    fn fresh_tight(host: Host) -> Self {
+        let st = |n: usize, g: usize| basic_settings(n, ReallocationStrategy::FixedSize(g));
+        BasicGarnishData::new_with_settings(st(1, 1), st(3, 2), st(2, 1), st(1, 2), st(4, 3), st(1, 1), host).expect("BasicGarnishData::new_with_settings")
     }
     fn host(&self) -> &Host {
         self.companion()
